@@ -110,6 +110,12 @@ def _main(a, prop, seed, t0):
             st['results'].append(r['result']); st['models'].append(r.get('model'))
             st.setdefault('logs', []).append(r['log'][:6])
     canary_bad += [u_ + '/every-completed-path-infeasible' for u_, (tot, bad) in path_end.items() if tot > 0 and bad == tot]
+    # a unit none of whose paths completes or raises: its preconditions are contradictory (pruned as infeasible before any obligation was stated)
+    raised_units = set(x['unit'] for x in info['raised']) | set(x['unit'] for x in info['unsupported'])
+    for u_ in info['units']:
+        if u_.get('kind') == 'function' and u_.get('paths', 0) > 0 and u_.get('completed', 0) == 0 and u_['name'] not in raised_units \
+           and not any(n.startswith(u_['name'] + '/reject/') for n, _, _ in obls):
+            canary_bad.append(u_['name'] + '/no-path-completed')
     if canary_bad:
         print(f"CHECKER-ERROR property={prop} vacuity canary proved (contradictory assumptions) in: {canary_bad[:5]}")
         return 3
